@@ -515,7 +515,22 @@ def gen_event(rng, depth=0, cls=None):
     kw.update(gen_dyn(rng, cls))
     if issubclass(cls, StopEvent) and rng.random() < 0.7:
         kw["result"] = gen_json(rng, 1)
-    return cls(**kw)
+    # some defaulted container fields are NOT passed to the constructor but filled in place afterwards (the field is
+    # then "unset" for pydantic although it holds data): the value must survive every codec all the same
+    later = {}
+    for name, fi in cls.model_fields.items():
+        if not fi.is_required() and isinstance(kw.get(name), (list, dict)) and kw[name] and rng.random() < 0.3:
+            later[name] = kw.pop(name)
+    ev = cls(**kw)
+    for name, v in later.items():
+        cur = getattr(ev, name)
+        if isinstance(v, list) and isinstance(cur, list):
+            cur.extend(v)
+        elif isinstance(v, dict) and isinstance(cur, dict):
+            cur.update(v)
+        else:
+            setattr(ev, name, v)
+    return ev
 
 
 def gen_tick(rng):
